@@ -5,6 +5,6 @@ CONSTANTS
   Caps = {0}
   MaxItems = 2
   Cons = {1, 2}
-  Prods = {1, 2}
+  Prods = {1}
 PROPERTIES CloseReleases ItemsDelivered
 CHECK_DEADLOCK FALSE
